@@ -57,14 +57,14 @@ def _keys(rng, n_max, pool=None):
 def random_step(rng, profile, allow_repack=True):
     weights = {
         'add': 5, 'addpack': 5, 'pack': 4, 'clean': 2, 'repack': 2, 'delete': 2, 'loosen': 1, 'import': 2,
-        'reopen': 1, 'initagain': 0.3, 'has': 0.7, 'get': 0.7, 'list': 0.5, 'listpart': 0.3, 'stalelock': 0.4, 'unlock': 0.2,
+        'reopen': 1, 'initagain': 0.3, 'has': 0.7, 'get': 0.7, 'list': 0.5, 'listpart': 0.3, 'stalelock': 0.4, 'unlock': 0.2, 'tmppack': 0.25, 'rmtmp': 0.2,
     }
     if profile == 'C09':
         weights.update({'addpack': 10, 'add': 8, 'import': 3, 'delete': 1, 'repack': 1, 'readd': 5})
     elif profile == 'C10':
         weights.update({'pack': 7, 'repack': 7, 'add': 6})
     elif profile == 'C11':
-        weights.update({'delete': 6, 'repack': 5, 'stray': 3})
+        weights.update({'delete': 6, 'repack': 5, 'stray': 3, 'tmppack': 1.2, 'rmtmp': 0.8})
     elif profile == 'C13':
         weights.update({'repack': 0, 'addpack': 8, 'reopen': 3, 'import': 3, 'stalelock': 2, 'unlock': 0.7})
     if not allow_repack:
@@ -163,6 +163,12 @@ def aba_histories(rng):
                  {'name': 'has', 'keys': ['k2', 'k3', 'k6']}, one('k5'), {'name': 'delete', 'keys': [second_gone]},
                  {'name': 'repack', 'mode': mode}, {'name': 'list'}, {'name': 'reopen'}, one('k7'), {'name': 'repack', 'mode': mode}]
         out.append(({'hash': 'sha256', 'prefix': 2, 'zlevel': 1, 'target': 1}, steps, f'gap;{first_gone};{second_gone};{mode}'))
+    # the temporary pack of an interrupted repack is in the way: refused, removed by the operator, repacked
+    for mode in ('KEEP', 'YES'):
+        steps = [{'name': 'addpack', 'keys': ['k2', 'k3', 'k5'], 'z': False, 'noholes': False, 'twice': True, 'via': 'bytes'},
+                 {'name': 'delete', 'keys': ['k3']}, {'name': 'tmppack'}, {'name': 'repack', 'mode': mode},
+                 {'name': 'has', 'keys': ['k2', 'k3', 'k5']}, {'name': 'rmtmp'}, {'name': 'repack', 'mode': mode}, {'name': 'list'}]
+        out.append(({'hash': 'sha256', 'prefix': 2, 'zlevel': 1, 'target': 10 ** 9}, steps, f'gap;tmp;{mode}'))
     return out
 
 
@@ -301,6 +307,18 @@ class Runner:
                         pack_id += 1
                     with open(os.path.join(packdir, f'{pack_id}.lock'), 'x'):
                         pass
+                return [], ''
+            if name == 'tmppack':
+                # environment: a repack was killed while it copied: its temporary pack stays behind
+                path = os.path.join(self.folder, 'packs', '-1')
+                if not os.path.exists(path):
+                    with open(path, 'wb') as handle:
+                        handle.write(b'left behind by an interrupted repack ' * 3)
+                return [], ''
+            if name == 'rmtmp':
+                path = os.path.join(self.folder, 'packs', '-1')
+                if os.path.exists(path):
+                    os.remove(path)
                 return [], ''
             if name == 'unlock':
                 packdir = os.path.join(self.folder, 'packs')
@@ -489,11 +507,12 @@ class Runner:
             'rows': [{'k': self.name_of.get(r['hashkey'], r['hashkey'][:8]), 'p': r['pack_id'], 'off': r['offset'],
                       'len': r['length'], 'z': r['compressed'], 'size': r['size'], 'tag': r['tag'], 'id': r['id']}
                      for r in state['rows']],
-            'packs': [{'p': p, 'len': info['len']} for p, info in sorted(state['packs'].items())],
+            'packs': [{'p': p, 'len': info['len']} for p, info in sorted(state['packs'].items()) if p >= 0],   # -1: see 'tmp'
             'dups': sorted({self.name_of.get(name.partition('.')[0], name[:8]) for name in state['duplicates']}),
             'locks': sorted(int(n[:-5]) for n in os.listdir(os.path.join(self.folder, 'packs')) if n.endswith('.lock') and n[:-5].isdigit()),
+            'tmp': os.path.exists(os.path.join(self.folder, 'packs', '-1')),
         }
-        blobs = state['_blobs']
+        blobs = {p: b for p, b in state['_blobs'].items() if p >= 0}    # the temporary pack -1 is not a pack of the store
         grow = []
         for pack_id, old in before_bytes.items():
             refs = [r for r in before_rows if r['pack_id'] == pack_id]
@@ -1025,7 +1044,7 @@ def _step_from_last(last, src):
     if op == 'import':
         return {'name': 'import', 'keys': sorted(_set(last['S'])), 'z': last['z'], 'budget': 100, 'iterable': 'list',
                 'callback': False, 'srckeys': src, 'samehash': last['sh']}
-    if op in ('reopen', 'initagain', 'stalelock', 'unlock'):
+    if op in ('reopen', 'initagain', 'stalelock', 'unlock', 'tmppack', 'rmtmp'):
         return {'name': op}
     return None
 
